@@ -248,7 +248,10 @@ func runCrypto(args []string) error {
 					s.mr.Set(s.sessionKey("sid-1"), av)
 					s.mr.SetTTL(s.sessionKey("sid-1"), time.Hour)
 				}
-				for _, kind := range []string{"p", "i"} {
+				for _, kind := range []string{"p", "i", "lo", "ll"} {
+					// (the damaged value is put back before every request: a logout may delete what it finds)
+					s.mr.Set(s.sessionKey("sid-1"), bv)
+					s.mr.SetTTL(s.sessionKey("sid-1"), time.Hour)
 					tid++
 					th := s.spawn(tid, reqSpec{kind: kind, cookie: A.cookie})
 					for i := 0; i < 50 && !th.done; i++ {
@@ -278,9 +281,9 @@ func runCrypto(args []string) error {
 					if l > len(orig) {
 						continue
 					}
-					s.mr.Set(bk, orig[:l])
-					s.mr.SetTTL(bk, ttl)
-					for _, kind := range []string{"p", "i"} {
+					for _, kind := range []string{"p", "i", "lo", "ll"} {
+						s.mr.Set(bk, orig[:l])
+						s.mr.SetTTL(bk, ttl)
 						tid++
 						th := s.spawn(tid, reqSpec{kind: kind, cookie: B.cookie})
 						for i := 0; i < 50 && !th.done; i++ {
